@@ -135,6 +135,20 @@ def _candidates(ctx, f, c):
             t = _trampoline_target(ctx, g)
             if t is not None:
                 return [t]
+    if isinstance(c.func, ast.Subscript) and isinstance(c.func.value, ast.Name):
+        # registry dispatch  _METHODS[method](...) : every registered function is a candidate
+        node = f.module.assigns.get(c.func.value.id) if hasattr(f.module, "assigns") else None
+        if isinstance(node, ast.Dict):
+            from .registries import resolve_function_value
+            cands = []
+            for v in node.values:
+                g, kw = resolve_function_value(ctx, f.module, v)
+                if not isinstance(g, FuncInfo):
+                    return []
+                # an option the registration binds itself is not expected from the dispatcher
+                cands.append(g)
+            return cands
+        return []
     if isinstance(c.func, ast.Name):
         # a local bound to one of several functions: g = {1: f1, 2: f2}[k] / g = f1 if c else f2 / g = f1
         local = []
@@ -161,6 +175,19 @@ def _candidates(ctx, f, c):
         if c.func.id in f.params:
             return []
         r = p.lookup(f.module, c.func.id)
+        if not isinstance(r, FuncInfo):
+            # a function-local import:  from quimb.tensor.tn1d.compress import tensor_network_1d_compress
+            for imp in ast.walk(f.node):
+                if isinstance(imp, ast.ImportFrom) and imp.module and any((a.asname or a.name) == c.func.id for a in imp.names):
+                    real = next(a.name for a in imp.names if (a.asname or a.name) == c.func.id)
+                    modname = imp.module
+                    if imp.level:
+                        base = f.module.name.split(".")
+                        base = base[: len(base) - imp.level + (1 if f.module.relpath.endswith("__init__.py") else 0)]
+                        modname = ".".join(base + [imp.module])
+                    mod = p.modules.get(modname)
+                    if mod is not None:
+                        r = p.lookup(mod, real)
         return [r] if isinstance(r, FuncInfo) else []
     if isinstance(c.func, ast.Attribute):
         r = p.resolve_expr(f.module, c.func) if dotted(c.func) else None
